@@ -226,7 +226,7 @@ Theorem one_reconstruct h full iter : 0 <= h < 2 ^ 64 ->
   exists st, Gen_One.AddCrt 0 h = Ok (tt, st) /\ Gen_One.IsFull st = true /\
     Gen_One.GetHashCodePart st full iter iter = Ok (h mod 2 ^ 63) /\
     Gen_One.pvGetHashState (h mod 2 ^ 63) = Gen_One.pvGetHashState h /\
-    (forall L, 0 <= L <= 62 -> Gen_Base.GetStartBucketIndex (h mod 2 ^ 63) (2 ^ L) = Gen_Base.GetStartBucketIndex h (2 ^ L)).
+    (forall L, 0 <= L <= 63 -> Gen_Base.GetStartBucketIndex (h mod 2 ^ 63) (2 ^ L) = Gen_Base.GetStartBucketIndex h (2 ^ L)).
 Proof.
   intros Hh. eexists. split; [reflexivity|].
   assert (Hst : forall x n, 0 <= n -> Z.testbit (Gen_One.pvGetHashState x) n = (n =? 0) || ((n <? 64) && Z.testbit x (n - 1))).
